@@ -18,6 +18,9 @@ CONSTANTS
   RemOffs = {0, 1, 2, 3}
   RemLens = {1, 2, 3}
   LabChoices = {TRUE, FALSE}
+  IfConds <- AllConds
+  MaxIfs = 4
+  Rotate = TRUE
   FeatureSets <- SimFeatures
   Ctls = {"c", "b", " ", "*"}
 INVARIANT TypeOK
